@@ -5,6 +5,7 @@ import io
 import itertools
 import math
 import os
+import re
 import struct
 import tempfile
 from pathlib import Path
@@ -43,9 +44,9 @@ ASSUMPTIONS = [
     "for subnormal v too; 8e6 sampled bit patterns: 0 or 1 ulp, never more); the decimal text with 19 "
     "significant digits is transparent; the tolerance of 4 ulp is DESIGN's reading of the statement's "
     "'a few units in the last place', not a measured margin",
-    "header text = printable ASCII plus '\\n' and '\\t'; '\\r' and other control characters are "
-    "line breaks for Python's universal-newline reader / str.splitlines (outside this package)",
-    "coordinate and dimension names are printable ASCII plus '\\n' (they enter the generated header)",
+    "header text = printable ASCII plus '\\n', '\\t' and the control characters CR, VT, FF, FS, GS, RS "
+    "(which some line splitters treat as line ends); coordinate and dimension names are printable "
+    "ASCII plus '\\n' and '\\r' (they enter the generated header)",
     "NaN and +-inf are outside the property's domain ('all finite float64 values')",
     "0-d input is included in the refusal facet (DESIGN; docstring 'must be 1-dimensional') "
     "although the statement only lists 'more than one dimension'",
@@ -60,8 +61,11 @@ MIN_NORMAL = 2.2250738585072014e-308
 VAR_ULP = 4
 
 PRINTABLE = "".join(chr(c) for c in range(32, 127))
-HDR_ALPHABET = PRINTABLE + "\n\t"
-NAME_ALPHABET = PRINTABLE + "\n"
+# ASCII control characters that some line splitters treat as line ends: CR (universal newlines),
+# VT, FF, FS, GS, RS (str.splitlines); seeded/C15-s6
+CONTROLS = "\r\x0b\x0c\x1c\x1d\x1e"
+HDR_ALPHABET = PRINTABLE + "\n\t" + CONTROLS
+NAME_ALPHABET = PRINTABLE + "\n\r"
 UNITS = [None, "one", "counts", "m", "us", "angstrom", "meV", "1/angstrom", "deg", "counts/us"]
 TARGETS = ["StringIO", "str", "Path", "file"]
 
@@ -141,7 +145,8 @@ def parse_xye_text(text: str):
     """
     rows = []
     ncomment = 0
-    for ln, line in enumerate(text.split("\n")):
+    # a text file's lines end at LF, CR or CR LF (universal newlines, the default of every text-mode reader)
+    for ln, line in enumerate(re.split("\r\n|\r|\n", text)):
         s = line.strip(" \t")
         if s == "":
             continue
@@ -227,6 +232,8 @@ def numeric_row():
 def header_line():
     return st.one_of(
         st.text(PRINTABLE + "\t", min_size=1, max_size=30),
+        # a control character followed by something that reads like a table row
+        st.tuples(st.text(PRINTABLE, max_size=5), st.sampled_from(list(CONTROLS) + ["\r\n"]), numeric_row()).map("".join),
         numeric_row(),
         numeric_row(),
         st.sampled_from(["1 2 3", "0", "1.0 2.0", "1 2 3 4", "#", "##", "# 1 2 3", "", " ", "3abc",
@@ -403,9 +410,9 @@ def load(case, handle):
 
 def written_header_lines(case) -> int:
     if case["header"]["kind"] == "default":
-        return 1 + case["coords"][case["chosen"]]["name"].count("\n")
+        return len(re.split("\r\n|\r|\n", case["coords"][case["chosen"]]["name"]))
     text = case["header"]["text"]
-    return 0 if text == "" else 1 + text.count("\n")
+    return 0 if text == "" else len(re.split("\r\n|\r|\n", text))
 
 
 def classify(case, x, y, v):
